@@ -322,8 +322,10 @@ def exec_plane(pb, gs, ops, in_domain: bool):
                 got = list(plane.find(op[1]))
                 outs.append(" ".join(str(o.id) for o in got) if got else "-")
                 if in_domain and fail is None:
-                    exp = sorted({o.id for o in order if overlap(o, op[1])})
-                    g = sorted(o.id for o in got)
+                    # brute force, AS A LIST: live objects that properly overlap, in insertion order
+                    # (the order no longer depends on the grid since the repair of Plane.find)
+                    exp = [o.id for o in order if overlap(o, op[1])]
+                    g = [o.id for o in got]
                     if g != exp:
                         fail = (idx, "find", exp, g)
             else:
@@ -405,7 +407,7 @@ def run_plane(ctx: C.Ctx) -> None:
         for inp, i_out, m_out in zip(inputs, impl, outs):
             if inp[0] == "plane.new":
                 bad_seq = False
-            # find order is part of the tie (both sides scan cells in the same order)
+            # find order is part of the tie (both sides report in insertion order)
             if i_out != m_out and not bad_seq:
                 ctx.disagree(inp[0], inp[1], i_out, m_out)
                 bad_seq = True     # report the first divergence of a sequence only
